@@ -1571,6 +1571,7 @@ def check_c05(rep):
     # the second mechanism the property names: merging of adjacent repeat counts while inserting into the trie
     known, _ = load_known()
     run_trie_obligations(rep, env, known, TRIE_SHAPES_QUICK if rep.tier == 'quick' else TRIE_SHAPES_THOROUGH)
+    run_edge_flag_obligations(rep, env, known, [(1, 1), (2, 1)] if rep.tier == 'quick' else [(1, 1), (2, 1), (2, 2), (1, 1, 1)])
     # end to end: build() with conversion of repetitions prints a pattern whose language is still exactly the test cases
     R = {'repetitions': True}
     specs = [((2,), 'letters', R), ((3,), 'letters', R), ((4,), 'letters', R), ((2, 1), 'letters', R)]
@@ -1592,6 +1593,9 @@ def check_c13(rep):
 
 
 def replay_c05(env, rec):
+    if rec['inputs'].get('edge_flags'):
+        bad, what, _ = replay_edge_flags(env)
+        return bad, what
     if 'quantified' in rec['inputs']:
         tests, settings = rec['inputs']['quantified'], rec['inputs']['settings']
         got = env.eval([{'op': 'build', 'cases': tests, 'settings': settings}])
@@ -1682,6 +1686,103 @@ def run_trie_obligations(rep, env, known, shapes):
             classify(rep, known, 'Q16t', key, 'input shape %s: %s' % (shape_txt, what), {'inputs': {'clusters': clusters}, 'observed': obs}, bad)
 
 
+def replay_edge_flags(env):
+    """public-API replay of a wrong presentation flag on a merged edge label: a two-letter unit repeated 2 and 3 times is merged
+    into (ab){2,3}; with exactly one of capturing groups / verbose mode the printed group must be of the requested kind and the
+    pattern must still match both test cases"""
+    cases = [[0x61, 0x62] * 2, [0x61, 0x62] * 3]
+    problems, obs = [], {}
+    for extra in ({'capture_groups': True}, {'verbose': True}):
+        st_ = dict(extra, repetitions=True)
+        got = env.eval([{'op': 'build', 'cases': cases, 'settings': st_}])
+        pat = got[0].get('ok')
+        if pat is None:
+            problems.append('build() panics with %s' % sorted(st_))
+            continue
+        txt = ''.join(map(chr, pat))
+        obs[','.join(sorted(st_))] = txt
+        found = env.eval([{'op': 'regex_find', 'pattern': pat, 'text': c} for c in cases])
+        if any(not (isinstance(r.get('ok'), list) and r['ok'][0] == 0 and r['ok'][1] == r['ok'][2]) for r in found):
+            problems.append('build(["abab","ababab"], %s) = %s does not match its test cases' % (','.join(sorted(st_)), json.dumps(txt)))
+        if extra.get('capture_groups') and '(?:' in txt:
+            problems.append('build(["abab","ababab"], %s) = %s has a non-capturing group' % (','.join(sorted(st_)), json.dumps(txt)))
+    return bool(problems), '; '.join(problems) or 'edge flags not observable', obs
+
+
+def run_edge_flag_obligations(rep, env, known, shapes):
+    env.prefetch([('q16t', (shape, 3, False, 'flags'), {}) for shape in shapes])
+    for shape in shapes:
+        o = ob_add(rep, env.run('q16t', shape, 3, False, 'flags'))
+        if o.result != 'sat':
+            continue
+        bad, what, obs = replay_edge_flags(env)
+        m = o.verdict.models[0]
+        key = 'edge-flags,capture=%s,colorize=%s,verbose=%s' % tuple(str(bool(m.get(k))).lower() for k in ('cfg_is_capturing_group_enabled', 'cfg_is_output_colorized', 'cfg_is_verbose_mode_enabled'))
+        classify(rep, known, 'Q16f', key, what, {'inputs': {'edge_flags': True}, 'observed': obs}, bad)
+
+
+def run_union_obligations(rep, env, known, max_letters, max_total):
+    """Q16u over every ordered pair of expression shapes of the enumerated family"""
+    fam = [f for f in Q.skeleton_family(max_letters, max_words=3, max_len=3)]
+    pairs = [(a, b) for a in fam for b in fam if Q.skel_words(a)[1] + Q.skel_words(b)[1] <= max_total]
+    env.prefetch([('q16u', (a, b), {}) for a, b in pairs])
+    n_unsat, shown = 0, 0
+    for a, b in pairs:
+        o = env.run('q16u', a, b)
+        if o.result == 'unsat':
+            n_unsat += 1
+            if shown < 6:          # keep the evidence readable: a few full records, the rest as one summary record
+                shown += 1
+                ob_add(rep, o)
+            continue
+        ob_add(rep, o)
+        if o.result != 'sat':
+            continue
+        repro_here = 0
+        for m in o.verdict.models:
+            cases = [[m['x%d' % i] for i in w] for w in o.extra['words_ix']]
+            cases = [list(t) for t in sorted(set(tuple(c) for c in cases), key=lambda c: (len(c), c))]
+            bad, what, obs = replay_pipeline(env, cases, {}, 'exact')
+            if not bad:
+                # whether the elimination calls union with these operands depends on what else is in the automaton: look for ONE more
+                # test case (over the letters used plus a fresh one) with which the real build() shows the difference
+                import itertools
+                alpha = sorted(set(c for t in cases for c in t)) + [0x71 if 0x71 not in [c for t in cases for c in t] else 0x7A]
+                extras = [list(w) for n_ in (1, 2, 3) for w in itertools.product(alpha, repeat=n_) if list(w) not in cases][:200]
+                got = env.eval([{'op': 'build', 'cases': cases + [w], 'settings': {}} for w in extras])
+                for w, g in zip(extras, got):
+                    if 'ok' not in g:
+                        continue
+                    txt = ''.join(map(chr, g['ok']))
+                    if '*' in txt or '+' in txt.replace('\\+', ''):
+                        bad, what, obs = replay_pipeline(env, cases + [w], {}, 'exact')
+                        if bad:
+                            cases = cases + [w]
+                            break
+                if not bad:
+                    short = [w for w in extras if len(w) <= 2][:24]
+                    pairs2 = [(u_, w_) for i_, u_ in enumerate(short) for w_ in short[i_ + 1:]]
+                    got = env.eval([{'op': 'build', 'cases': cases + [u_, w_], 'settings': {}} for u_, w_ in pairs2])
+                    for (u_, w_), g in zip(pairs2, got):
+                        txt = ''.join(map(chr, g.get('ok') or []))
+                        if '*' in txt or '+' in txt.replace('\\+', ''):
+                            bad, what, obs = replay_pipeline(env, cases + [u_, w_], {}, 'exact')
+                            if bad:
+                                cases = cases + [u_, w_]
+                                break
+            if bad:
+                repro_here += 1
+                classify(rep, known, 'Q16u', 'cases=%s' % canonical_words(cases), what, {'inputs': {'pipeline': cases, 'settings': {}, 'clause': 'exact'}, 'observed': obs}, True)
+                if repro_here >= 3:
+                    break
+        if not repro_here:
+            rep.nonrepro.append('%s: %d input(s) on which Expression::union does not denote the union; none reproduces through build() (the elimination never '
+                                'calls union with these operands for those test cases)' % (o.qid, len(o.verdict.models)))
+    rep.obligations.append({'id': 'Q16u[summary]', 'title': Q.q16u.__doc__, 'engine': 'mirsym', 'result': 'unsat' if n_unsat == len(pairs) else 'mixed',
+                            'input_domain': '%d ordered pairs of expression shapes (<= %d letters each, <= %d together); %d unsat' % (len(pairs), max_letters, max_total, n_unsat),
+                            'paths': 0, 'queries': 0})
+
+
 def replay_minimised(env, cases):
     """public-API replay for the minimisation stage: default build(), then the regex crate on the universe of short strings"""
     got = env.eval([{'op': 'build', 'cases': cases, 'settings': {}}])
@@ -1752,6 +1853,7 @@ def check_c16(rep):
     env = Env(rep)
     known, _ = load_known()
     run_trie_obligations(rep, env, known, TRIE_SHAPES_QUICK if rep.tier == 'quick' else TRIE_SHAPES_THOROUGH)
+    run_edge_flag_obligations(rep, env, known, [(1, 1), (2, 1)] if rep.tier == 'quick' else [(1, 1), (2, 1), (2, 2), (1, 1, 1)])
     run_minimiser_obligations(rep, env, known, MIN_SPECS_QUICK if rep.tier == 'quick' else MIN_SPECS_THOROUGH)
     # (3) state elimination: the expression denotes the language of the automaton it is given
     e_shapes = [(1,), (1, 1), (2, 1), (2, 2)] if rep.tier == 'quick' else [(1,), (1, 1), (2, 1), (2, 2), (2, 2, 1), (3, 2), (3, 3), (2, 2, 2)]
@@ -1764,12 +1866,22 @@ def check_c16(rep):
                 bad, what, obs = replay_minimised(env, cases)
                 classify(rep, known, 'Q16e', 'cases=%s' % canonical_shape([[(c, 1) for c in s_] for s_ in cases]), what,
                          {'inputs': {'min_cases': cases}, 'observed': obs}, bad)
+    # (3b) Expression::union as a unit, over every ordered pair of small expression shapes
+    if rep.tier == 'quick':
+        run_union_obligations(rep, env, known, 3, 5)
+    else:
+        run_union_obligations(rep, env, known, 4, 7)
     # (4) the printed pattern denotes that same language: the whole of build() incl. Display (format.rs: classes with ranges, groups, escaping)
     run_default_text_obligations(rep, env, known, [((2, 1), False, 'letters'), ((1, 1, 1), False, 'ascii')] +
                                  ([((2, 2), False, 'letters'), ((1, 1, 1), False, 'letters'), ((2,), False, 'ascii'), ((2, 1), False, 'ascii')] if rep.tier == 'thorough' else []))
 
 
 def replay_c16(env, rec):
+    if rec['inputs'].get('edge_flags'):
+        bad, what, _ = replay_edge_flags(env)
+        return bad, what
+    if 'pipeline' in rec['inputs']:
+        return replay_c02(env, rec)
     if 'min_cases' in rec['inputs']:
         bad, what, _ = replay_minimised(env, rec['inputs']['min_cases'])
         return bool(bad), what
@@ -2109,7 +2221,9 @@ def check_c02(rep):
                      'preprocessing, grapheme clustering, trie construction, Hopcroft minimisation, recreate_graph, Brzozowski elimination with '
                      'union / concatenate and their simplifications, all executed from MIR -- returns an expression whose language (computed from '
                      'the returned Expression value) is EXACTLY the set of test cases. With the empty string among the test cases it is not: '
-                     'known finding F7.')
+                     'known finding F7.  (c) Expression::union as a unit: for every ordered pair of expression shapes of the enumerated family '
+                     '(literal runs, concatenation, alternation, optional; <= 3 (4) letters each) over symbolic letters, union(a, b) denotes L(a) union L(b); '
+                     'a counterexample is reported if it reproduces through build(), if need be with one or two further test cases.')
     rep.outside = ['the regex crate\'s own parser (the printed text is read back by a parser written for the subset of syntax grex emits; every counterexample is replayed with the real regex crate)',
                    'code points other than printable ASCII (grapheme clustering is stubbed to one cluster per character)', 'more or longer test cases than the bound',
                    'settings other than the default (each covered by its own property)']
@@ -2125,6 +2239,8 @@ def check_c02(rep):
           ((2, 2), False, 'letters'), ((1, 1, 1), False, 'ascii')]
     tt = tq + [((1, 1, 1), False, 'letters'), ((2, 1), False, 'ascii'), ((3, 2), False, 'letters'), ((2, 2, 1), False, 'letters'), ((3,), False, 'ascii')]
     run_default_text_obligations(rep, env, known, tq if rep.tier == 'quick' else tt)
+    # the factoring step on its own, beyond the end-to-end bound: Expression::union over every ordered pair of small expression shapes
+    run_union_obligations(rep, env, known, 3, 5) if rep.tier == 'quick' else run_union_obligations(rep, env, known, 4, 7)
 
 
 def check_c01(rep):
